@@ -102,9 +102,28 @@ def evaluate(ctx, cases):
     return viol, mism, stats
 
 
+def pessimistic_sets(ctx):
+    """compute_pessimistic_set() of VOGP / eps-PAL on the regions displayed in real runs (stub posteriors, incl. identical
+    rectangles) against the reference set computed from the extracted check_dominates table"""
+    import scenarios, algcheck
+    from props import algcommon
+    recs = []
+    for a in ("VOGP", "EpsilonPAL"):
+        for _ in range(4 if ctx.quick else 40):
+            recs.append(scenarios.run_spec(scenarios.make_spec(ctx.rng, a, small=True)))
+    for v in range(2 if ctx.quick else 3):
+        recs.append(scenarios.run_spec(scenarios.epal_directed("tie", variant=v), max_steps=4))
+        recs.append(scenarios.run_spec(scenarios.epal_directed("stale-witness", variant=v), max_steps=4))
+    an = algcheck.Analysis(ctx, recs)
+    return algcommon.diff_violations(an, ("pessimistic_set",), "C11"), an.stats.get("compared", 0)
+
+
 def run(ctx):
     cases = gen_cases(ctx)
     viol, mism, stats = evaluate(ctx, cases)
+    pv, pn = pessimistic_sets(ctx)
+    viol = viol + pv
+    stats["pessimistic_set_rounds_compared"] = pn
     res = {"evaluations": len(cases), "distinct_nontrivial": len({common.sha(common.json.dumps(c, default=str)) for c in cases if c["rel"] != "same"}),
            "rule": "rectangle pairs (random / shifted along cone directions / identical / sharing a coordinate; degenerate edges) at scales 2^-6..2^3 x named and random integer cones (any facet count); implementation compared exactly with the extracted model; soundness: a True answer must satisfy the exact per-vertex Fourier-Motzkin specification; completeness (2x2 invertible cones): specification with margin 2^-20 x scale implies True; non-trivial = not identical rectangles",
            "samples": [common.json.loads(common.json.dumps(c, default=str)) for c in cases[:3]],
@@ -116,6 +135,10 @@ def run(ctx):
 
 def replay(ctx, data):
     r = data["replay"]
+    if "spec" in r:
+        from props import algcommon
+        rec, an, v = algcommon.replay_spec(ctx, data, ("pessimistic_set",))
+        return bool(v), (v[0]["message"] if v else "pessimistic set agrees with the reference")
     def F(x):
         return [F(e) for e in x] if isinstance(x, list) else Fraction(x)
     c = {k: (F(v) if k in ("l1", "u1", "l2", "u2") else v) for k, v in r.items()}
